@@ -3,7 +3,7 @@
 The prover executes them symbolically with every call into the repository replaced by the callee's CONTRACT (never its
 body), and every `assert cond, "label"` becomes a named obligation `ghost.<fn>:assert:<label>`.  The native harness
 runs the same text against the real code.  They contain no repository logic of their own."""
-from space_packet_parser.packets import RawPacketData, create_ccsds_packet
+from space_packet_parser.packets import RawPacketData, ccsds_generator, create_ccsds_packet
 from specs.oracles import *  # noqa: F401,F403  (spec functions may be used in assertions)
 
 
@@ -100,3 +100,37 @@ def c20_packet_copy(items, raw, pos):
         assert q.raw_data.pos == pos, name + "_cursor"
         assert q.header == p.header and q.user_data == p.user_data, name + "_views"
     return p
+
+
+# ---- C02: exactness on well-formed streams, as a lemma over the framer's CONTRACT ------------------------------------
+def c02_exact(binary_data, skip_header_bytes, N):
+    """If the stream is exactly N records (k prefix bytes + one complete packet each), the framer yields exactly
+    those N packets, byte-identical and in order, and nothing else."""
+    T = binary_data
+    k = skip_header_bytes
+    out = list(ccsds_generator(binary_data, skip_header_bytes=skip_header_bytes))
+    assert not (len(out) < N), "not_fewer"
+    assert not (len(out) > N), "not_more"
+    assert len(out) == N, "count"
+    assert forall(lambda i: out[i] == sl(T, fb(T, k, i) + k, fb(T, k, i + 1)), 0, N), "items"
+    return out
+
+
+def c13_reframe(data, version_number, type, secondary_header_flag, apid, sequence_flags, sequence_count):
+    """C13: the framer re-frames a constructed packet as that single packet (over the two CONTRACTS)."""
+    pkt = create_ccsds_packet(data, version_number=version_number, type=type,
+                              secondary_header_flag=secondary_header_flag, apid=apid,
+                              sequence_flags=sequence_flags, sequence_count=sequence_count)
+    T = bytes(pkt)
+    use(bits_prefix(T, 6, 32, 16))
+    use(fb_zero(T, 0))
+    use(fb_step(T, 0, 0))
+    use(fb_step(T, 0, 1))
+    use(bits_range(T, 8 * fb(T, 0, 1) + 32, 16))
+    assert be(T[0:6]) % 2**16 == len(data) - 1, "length_field"
+    assert fb(T, 0, 1) == len(T), "one_record"
+    out = list(ccsds_generator(pkt))
+    assert len(out) >= 1, "at_least_one"
+    assert len(out) <= 1, "at_most_one"
+    assert out[0] == T, "same_bytes"
+    return out
